@@ -43,6 +43,13 @@ CHECKS = {
   'note': 'The family is finite (about 700 distinct trees x 2 syntaxes); deeper nestings are covered only in so far as bracket decisions depend on (parent id, child id, position) alone, which is what the generator code reads. '
           'Trusts the partial evaluator (engine/evalmini.py) and the lexer/parser model readers. Names colliding under transliteration are excluded by the statement.',
  },
+ 'C18': {
+  'technique': 'interprocedural mod-set analysis over the resolved call graph (including CRTP visitor dispatch) vs. whole-member kills of the reset step; dominance of the reset on the CFG; inventory of mutable statics',
+  'text': 'Decides history independence as reset completeness: for each long-lived analyser (TypeAuditor, ValueAuditor, ASTInterpreter, ParserState/RSParser, Parser, Auditor, Interpreter, both lexers) every member that any code reachable '
+          'from its entry point may modify is re-initialised by the reset step that dominates the entry point, or is RAII-restored, or is a sub-analyser driven only through its own verified entry point; the error log is cleared on every path; '
+          'every mutable static (shared generators, literal parser) is reset before use, never written, or a listed singleton. Equal initial state for every call is the structural condition for "result depends only on this input".',
+  'note': 'Assumes the analysers are deterministic functions of their members and arguments (no hidden state outside the inventoried statics; third-party RE/flex matcher state is rebound by in()). Exemption tables (configuration members, error sinks) are in rules/C18.py with one reason each.',
+ },
 }
 
 _PENDING = 'rule module not yet implemented in this round; see DESIGN.md section 4 for the clauses planned'
